@@ -478,6 +478,7 @@ fn run_ops<'a, S: BitmapSlice>(
             ev.insert("ssize".into(), json!(size));
         }
         tr.emit(&Value::Object(ev));
+        tr.flush(); // a later crash of the code under test must not lose what was observed so far
     }
     i
 }
